@@ -111,5 +111,75 @@ theorem iter_expand (e : Env F) (mst : AStar.St F) (s : State F) (hs : s.ctl = .
     | (simp [setS_apply]; done)
     | (rw [hp3, hfa2])
 
+/-- the parent walk only looks at the cells it visits -/
+theorem walk_congr {par par' : Cell → Option Cell} {start : Cell} (P : Cell → Prop)
+    (hpp : ∀ c, P c → par c = par' c) :
+    ∀ {n : Nat} {cur : Cell} {chain : List Cell}, walk par start n cur = some chain → (∀ c ∈ chain, P c) →
+      walk par' start n cur = some chain
+  | 0, _, _, h, _ => by simp [walk] at h
+  | n + 1, cur, chain, h, hin => by
+    simp only [walk] at h ⊢
+    by_cases hc : cur = start
+    · simpa [hc] using h
+    · simp only [hc, if_false] at h ⊢
+      obtain ⟨t, ht⟩ := walk_head (n := n + 1) (par := par) (s := start) (c := cur) (l := chain)
+        (by simp only [walk, hc, if_false]; exact h)
+      rw [← hpp cur (hin cur (by simp [ht]))]
+      cases hp : par cur with
+      | none => simp [hp] at h
+      | some p =>
+        simp only [hp, Option.map_eq_some_iff] at h ⊢
+        obtain ⟨t', ht', rfl⟩ := h
+        exact ⟨t', walk_congr P hpp ht' (fun c hc => hin c (by simp [hc])), rfl⟩
+
+/-- **the iteration that pops the goal**: the function returns after `_reconstruct_path` has written
+    `d_from_start[c]` into `path_img[c]` for exactly the cells of the model's parent walk from the goal to the start
+    (hypotheses: the walk succeeds within some fuel and stays in the raster, the goal has a parent -- both are
+    consequences of the search invariant, `AStar.search_spec`) -/
+theorem iter_goal (e : Env F) (mst : AStar.St F) (s : State F) (hs : s.ctl = .run) (hc : SrchConst e s)
+    (ha : SrchAbs e s mst) (hmin : minCostOpen e mst = some e.goal) (fuel : Nat)
+    (hpar : mst.parent e.goal ≠ none) (n : Nat) (chain : List Cell)
+    (hw : walk mst.parent e.start n e.goal = some chain) (hin : ∀ c ∈ chain, inside e.h e.w c = true)
+    (hfuel : chain.length ≤ fuel) :
+    (exec fuel whileBody s).ctl = .ret ∧
+      (exec fuel whileBody s).fa "path_img" =
+        chainW (s.fa "d_from_start") e.w (e.start :: chain.dropLast) (s.fa "path_img") := by
+  have hu := minCostOpen_inside hmin
+  obtain ⟨s2, h2, hs2, hinv2, hfa2, hpy2, hpx2⟩ := pop_exec e mst s hs hc ha e.goal hmin fuel
+  have hc2 := hinv2.const
+  let s3 : State F :=
+    { s2 with
+      ienv := setS (setS (setS (setS s2.ienv "_reconstruct_path5$start_py" e.start.1)
+                "_reconstruct_path5$start_px" e.start.2) "_reconstruct_path5$goal_py" e.goal.1)
+                "_reconstruct_path5$goal_px" e.goal.2,
+      ctl := .run }
+  have hpo : ∀ c, inside e.h e.w c = true →
+      mst.parent c = parentOf (s3.ia "parent_ys") (s3.ia "parent_xs") e.w c := by
+    intro c hc'
+    rw [ha.parent c hc']
+    show _ = parentOf (s2.ia "parent_ys") (s2.ia "parent_xs") e.w c
+    rw [hpy2, hpx2]
+  have e1 : q5 "start_py" = "_reconstruct_path5$start_py" := by decide
+  have e2 : q5 "start_px" = "_reconstruct_path5$start_px" := by decide
+  have e3 : q5 "goal_py" = "_reconstruct_path5$goal_py" := by decide
+  have e4 : q5 "goal_px" = "_reconstruct_path5$goal_px" := by decide
+  have hrc := rc_exec_some q5 q5_ren "d_from_start" e.h e.w s3 fuel rfl
+    ⟨hc2.s_path, hc2.s_py, hc2.s_px, hc2.s_g, by decide⟩ e.start e.goal
+    ⟨by rw [e1]; simp [s3, setS_apply], by rw [e2]; simp [s3, setS_apply], by rw [e3]; simp [s3, setS_apply],
+     by rw [e4]; simp [s3, setS_apply]⟩
+    (by rw [← hpo _ hu]; exact hpar) n chain
+    (walk_congr (fun c => inside e.h e.w c = true) hpo hw hin) hin hfuel
+  have hg : exec fuel goalSt s2 = { exec fuel (rcSt q5 "d_from_start") s3 with ctl := .ret } := by
+    have hr1 := hrc.1
+    ilsimp [goalSt, s3, hinv2.py, hinv2.px, hc2.gy, hc2.gx, hc2.sy, hc2.sx, hs2]
+    simp only [s3] at hr1
+    simp [hr1]
+  rw [h2, wbGoal, exec_seq_eq hg]
+  refine ⟨rfl, ?_⟩
+  show (exec fuel (rcSt q5 "d_from_start") s3).fa "path_img" = _
+  rw [hrc.2.1]
+  simp [s3, hfa2]
+
 end XrsVerif.IL
+
 
